@@ -144,6 +144,17 @@ CHECKS = {
              'Kinds without a factory in harness/zoo.py are listed in the evidence as gaps.',
         technique='TLA+ spec + TLC (truth tables) + behaviour replay into real SubsetState objects',
         design='7/C01'),
+    'C05': dict(
+        text='Memo.tla: the abstract state holds only versions (data values, shape, parameters of each leaf, link); Evaluate has no '
+             'effect and its required result is a function of the current versions; TLC enumerates every interleaving of evaluations '
+             '(mask, mask under a view, attached subset, statistic, histogram, linked value) and mutations (replace values, refresh '
+             'with same/new shape, move/edit/set leaf parameters incl. inside composites, add/remove link) over six tree shapes, '
+             'attached and free; each runs on long-lived real objects, and for every evaluation fresh, never evaluated objects are '
+             'rebuilt from the abstract versions and compared.',
+        note='Bounded: <= 2+2 (thorough 3+3) evaluations/mutations, 11 leaf kinds assigned round-robin. Two open known findings '
+             '(KF-C05-1 in-place edits after evaluation, KF-C05-2 flood fill after value change). Viewer layer-state caches are not driven.',
+        technique='TLA+ spec + TLC (interleavings) + replay with fresh-rebuild oracle',
+        design='7/C05'),
 }
 
 NOT_APPLICABLE = {}
